@@ -1,7 +1,8 @@
 """C09 copies and state-level persistence (DESIGN §4 C09)."""
 from vt.props import common_spaces as cs
-CLAIM = 'copyState / serialize+deserialize round trips of the real state-space code reproduce every state bit for bit'
-OUT = 'StateStorage, PlannerDataStorage, PlannerData graphs (boost::serialization over iostreams is outside the encodable fragment): marker/signature/truncation rejection is NOT checked'
+CLAIM = 'copyState / serialize+deserialize round trips of the real SO(2), R^n, Time, Discrete code reproduce every state bit for bit and write only their own serialization length'
+OUT = 'StateStorage, PlannerDataStorage, PlannerData graphs (boost::serialization over iostreams is outside the encodable fragment): marker/signature/truncation rejection is NOT checked; compound/wrapper delegation (thorough)'
 ASSUMPTIONS = []
 def queries(tier):
-    return [cs.so2('roundtrip', tier, bound='every 64-bit pattern')]
+    return [cs.so2('roundtrip', tier, bound='every 64-bit pattern'), cs.rv('roundtrip', tier, 1, bound='dim 1, every bit pattern'),
+            cs.rv('roundtrip', tier, 3, bound='dim 3, every bit pattern'), cs.misc('misc_roundtrip', tier, bound='every bit pattern')]
